@@ -228,4 +228,5 @@ package graphql
 //@ func ExecutePlan
 //@   props C17
 //@   nosafety
-//@   at return: assert calls("handleExtensionsExecutionDidStart") == 0 || len(extErrs) != 0 || deferred() >= 1
+//@   at return: assert calls("handleExtensionsExecutionDidStart") == 0 || calls("executionFinishFn") == 1 || deferred() >= 1
+//@   at call executionFinishFn: assert arg0 != nil
